@@ -37,6 +37,10 @@ def apply_op(f, op, val):
     if k == "set":
         g, key = _target(f, op[1], op[2])
         g[key] = val
+    elif k == "setbig":  # a payload larger than typical I/O chunk sizes (op[3] = number of bytes)
+        g, key = _target(f, op[1], op[2])
+        n = int(op[3])
+        g[key] = np.void(bytes((val + 31 * i) % 251 for i in range(n)))
     elif k == "setbad":  # a write that must fail (value has no HDF5 equivalent) - and leave no trace
         g, key = _target(f, op[1], op[2])
         g[key] = {"bad": object()}
